@@ -83,6 +83,12 @@ static std::string guess_filepath(const Patch& patch, bool reverse_patch)
     // For now, this implementation matches the GNU behaviour when the --posix flag is specified. In
     // the future, we may want to make our implementation match whatever the behaviour of GNU patch
     // is for this path determination.
+    // Reversing a rename or a copy starts from the file which it made, even if its old name is taken
+    // by something else (such as the other half of two files being swapped).
+    if (reverse_patch && (patch.operation == Operation::Rename || patch.operation == Operation::Copy)
+        && filesystem::exists(patch.new_file_path))
+        return patch.new_file_path;
+
     if (patch.old_file_path != "/dev/null" && filesystem::exists(patch.old_file_path))
         return patch.old_file_path;
 
